@@ -454,6 +454,20 @@ def handmade_scenes():
     data[3, 6] = 6.0
     data[3, 19] = 6.0
     out.append(('bump-between-peaks', data, segm))
+    # one parent on a pedestal: a diagonal bar with a peak at each end (a marker with a non-convex
+    # footprint that splits at a higher level) and a blob with a bright core in the empty corner
+    # of the bar's bounding box, one pixel of the blob sticking out below that box
+    data = np.zeros((12, 14))
+    data[0:10, :] = 1.0
+    data[1:3, 1:6] = 5.0
+    for r in range(3, 8):
+        data[r, r + 2:r + 4] = 3.0
+    data[8:10, 10:13] = 5.0
+    data[6:10, 1:5] = 3.0
+    data[7:9, 2:4] = 5.0
+    data[10, 2] = 3.0
+    segm = (data > 0).astype(int) * 7
+    out.append(('diagonal-bar-corner-blob', data, segm))
     return out
 
 
@@ -463,7 +477,7 @@ def handmade_stage(ctx):
     for name, data, segm in handmade_scenes():
         for npix in (2, 3, 4, 6):
             for conn in (8, 4):
-                if conn == 4 and name == 'diagonal-tail':
+                if conn == 4 and name in ('diagonal-tail',):
                     continue       # that parent is only 8-connected: 4-connectivity is a documented error
                 for relabel in (False, True):
                     for mode, nlevels in (('linear', 8), ('linear', 3), ('exponential', 16)):
